@@ -166,7 +166,7 @@ func execC01(c CaseC01) *Outcome {
 	N := A + nobs
 	no := false
 	// authors first (replication off), observers opened afterwards with replication on
-	var openOn []int
+	openOn := []int{}
 	for i := 1; i < A; i++ {
 		openOn = append(openOn, i)
 	}
